@@ -39,6 +39,7 @@ def plan(tier, seed):
 	for off in offsets(tier, seed):
 		for part in range(16):
 			tasks.append(('t_universe', dict(n=n, offset=off, part=part, nparts=16)))
+	tasks.append(('t_nearly_identical', dict(tier=tier)))
 	return tasks
 
 
@@ -123,9 +124,53 @@ def t_universe(n, offset, part, nparts):
 	return sh
 
 
+def t_nearly_identical(tier):
+	"""Large signatures that differ in one or two k-mers (n = 100 ... 2^20, thorough 2^22): the distance must be > 0, bitwise symmetric, must
+	strictly decrease when a k-mer absent from both is added to both, and must not change with the storage width - where the quotient is
+	rounded (near 0 or near 1) decides all of this."""
+	import numpy as np
+	from gambit.metric import jaccarddist
+	sh = Shard()
+	ns = [100, 1000, 5000, 6000, 7000, 20000, 65536, 100000, 1 << 20] + ([1 << 22] if tier != 'quick' else [])
+	for n in ns:
+		base = np.arange(0, 3 * n, 3, dtype='u8')              # n values, room in between for new ones
+		for ndiff in (1, 2):
+			A = base.copy()
+			B = base.copy()
+			B[n // 2] += 1                                      # one k-mer differs
+			if ndiff == 2:
+				A[n // 3] += 2
+			for da, db in (('u8', 'u8'), ('u4', 'u8'), ('i8', 'u4')):
+				a, b = A.astype(da), B.astype(db)
+				d1 = f32bits(jaccarddist(a, b))
+				sh.evals += 1
+				case = dict(A=f'arange(0,{3 * n},3) with {ndiff} element(s) moved', B='same with element n//2 + 1', n=n, da=da, db=db)
+				if d1 == 0 or d1 != f32bits(jaccarddist(b, a)):
+					sh.violation('zero-iff-equal' if d1 == 0 else 'symmetry', case, '> 0 and symmetric', d1)
+					continue
+				exp = R.f32_bits_of_fraction(Fraction(2 * ndiff, n + ndiff))
+				if d1 != exp:
+					sh.violation('value', case, exp, d1)
+					continue
+				# add a k-mer absent from both to both
+				x = 3 * n + 7
+				a2, b2 = np.append(a, np.array([x], dtype=da)), np.append(b, np.array([x], dtype=db))
+				d2 = f32bits(jaccarddist(a2, b2))
+				sh.evals += 1
+				if not R.f32_bits_to_fraction(d2) < R.f32_bits_to_fraction(d1):
+					sh.violation('strict-decrease', dict(case, x=x), f'< {d1}', d2)
+					continue
+				sh.nontrivial += 1
+				sh.count('nearly_identical_large_pairs')
+				sh.outcome(['near', d1])
+	sh.sample(dict(family='nearly-identical', sizes=ns))
+	return sh
+
+
 def finalize(agg, tier):
 	agg.require('strict_decrease_checked', 100)
 	agg.require('triangle_tight', 10)
+	agg.require('nearly_identical_large_pairs', 20)
 
 
 def replay(case, kind=None):
@@ -135,6 +180,8 @@ def replay(case, kind=None):
 
 	def d(X, Y, da, db):
 		return f32bits(jaccarddist(np.array(X, dtype=da), np.array(Y, dtype=db)))
+	if 'n' in case:
+		return [v for v in t_nearly_identical('thorough').violations if v['case'].get('n') == case['n'] and v['case'].get('da') == case['da']][:1]
 	A, B = case['A'], case['B']
 	da = case.get('da', case.get('dtype')) or 'u8'
 	db = case.get('db', case.get('dtype')) or 'u8'
